@@ -256,7 +256,9 @@ def f_copyspan(F, res):
                 continue
             n += 1
             du = du or mir.DefUse(f)
-            o = mir.provenance(f, du, rv["ops"][rv["fields"].index("span")])
+            # a span that is a parameter of a helper (`fn ensure_within_limit(.., span: &Span)`) is what the callers pass
+            from ..common import outer_origins
+            o = [x for _, x in outer_origins(F, f, rv["ops"][rv["fields"].index("span")], depth=2)]
             key = "%s|%s.span" % (f["path"], rv["adt"].split("::")[-1])
             w = where(f, s["line"])
             good = bool(o) and all((x.kind == "call" and x.callee.endswith("::span")) or (x.kind == "arg" and x.proj and x.proj[-1] == ".span") or
@@ -266,7 +268,7 @@ def f_copyspan(F, res):
             else:
                 res.add([finding("F-COPYSPAN", key, w, "diagnostic span does not come from the node it concerns: %r" % o)])
     res.count("analysis diagnostic constructions", n)
-    res.floor("analysis diagnostic constructions", n, 7)
+    res.floor("analysis diagnostic constructions", n, 4)
 
 
 def run(ctx):
